@@ -400,12 +400,31 @@ def write_if_changed(path, text):
     return True
 
 
-def regenerate(repo, coq_dir):
-    """Rewrite Gen/*.v from the source.  Returns the list of files that changed."""
+FALLBACKS = []      # (file, reason) of the last regenerate(): translated parts taken from the committed snapshot
+
+
+def regenerate(repo, coq_dir, use_snapshots=True):
+    """Rewrite Gen/*.v from the source.  Returns the list of files that changed.
+
+    A source file the translator cannot read any more (a restructured `format!`, a reformatted table) does not by itself say
+    anything about a property: the part is then taken from the snapshot committed under coq/GenRef/ (made from the source the
+    machinery was built against), the fact is recorded in FALLBACKS (and from there in the evidence), and the tie between that
+    part of the model and the code rests on the correspondence check alone — every emitted text / every front-end result is
+    compared byte for byte with the model's, so a change of the template or of the tables that the translator cannot follow
+    shows up there as a disagreement on the first input."""
     changed = []
+    del FALLBACKS[:]
     for name, fn in (('KikiTables.v', gen_kiki_tables), ('Template.v', gen_template), ('KikiAnn.v', gen_kiki_ann)):
         p = os.path.join(coq_dir, 'Gen', name)
-        if write_if_changed(p, fn(repo)):
+        try:
+            text = fn(repo)
+        except Exception as e:
+            ref = os.path.join(coq_dir, 'GenRef', name + '.ref')
+            if not (use_snapshots and os.path.exists(ref)):
+                raise
+            text = open(ref, encoding='utf-8').read()
+            FALLBACKS.append((name, ('%s: %s' % (type(e).__name__, e))[:300]))
+        if write_if_changed(p, text):
             changed.append(p)
     return changed
 
